@@ -50,6 +50,7 @@ class FunSpec:
         callers=None,
         at_call=None,
         cut_ensures=None,
+        opaque=(),
     ):
         self.target = target
         self.module, self.qualname = target.split(":")
@@ -74,6 +75,8 @@ class FunSpec:
         # statement contract on a PREFIX of the body: the contract covers the statements before the first top-level
         # statement whose source starts with this text; the rest of the body is dropped (and said so in the evidence)
         self.until = until
+        # recursive spec functions that this proof uses only as uninterpreted symbols (no unfolding: fewer, never wrong, facts)
+        self.opaque = tuple(opaque)
         # with until=: clauses proved where control falls through to the cut (default: `ensures`; `ensures` then also covers
         # the returns inside the prefix)
         self.cut_ensures = None if cut_ensures is None else list(cut_ensures)
